@@ -58,3 +58,8 @@ chk("C17", "model_checking",
     "(a) 8.06M tuples of determineNewIdentityState (all prior states x flags x float32 neighbours of every threshold): rule invariants of the statement and functionality. (b) BFS over complete validations on a 5-participant network: every split of hash / short / long / evidence transactions (subsets, intra-block orders, hostile evidence maps, reveal not matching the commitment) over the session blocks; every block is built by a node restarted before that block (restoreState path), validated by a fresh replica (first evaluation), by a never-restarted node that followed the whole ceremony, and by a node that re-evaluates the height from its cache after proposing; rule invariants on every applied epoch result; one epoch result per set of on-chain ceremony transactions regardless of arrival blocks.",
     "'Missed' is taken as the protocol can observe it (short+long answers on chain and evidence majority); a failed validation (nobody validated) keeps all statuses by protocol design and is outside the rule invariants; map-order deviations on the epoch block are enumerated by C01 on the same driver.",
     "DESIGN.md 5/C17", "enum+chainmc")
+chk("C19", "model_checking",
+    "bounded-exhaustive enumeration of request shapes (kind x key form, all batches up to the length bound) against the real rpc.Server with a probe service over all transports",
+    "Alphabet of 11 request kinds x 15 key forms = 165 elements (missing/empty/wrong/prefix/suffix/case/null/numeric/array keys, duplicate members in both orders, member spelled Key/KEY, calls, unknown methods, subscribe/unsubscribe, missing id, malformed method, oddly typed params). Every single request and every batch of length <= 3 over the full alphabet (4.5M requests) plus length 4 over a reduced alphabet through the real JSON codec; singles and keyed/keyless pairs in both positions over HTTP, WebSocket and unix-socket IPC; keyless unsubscribe of a live subscription. Probe counters must equal the keyed elements; keyless well-formed elements must get code -32800.",
+    "'Carries the key' follows encoding/json semantics (case-insensitive member names, last duplicate wins).",
+    "DESIGN.md 5/C19", "enum")
